@@ -1,5 +1,5 @@
 (* C06 — property theorems only. Each is closed by [exact] of a lemma proved in C06/Proofs*.v. *)
-From Coq Require Import List Arith Bool ZArith QArith.
+From Coq Require Import List Arith Bool ZArith QArith Lia.
 Import ListNotations.
 From AgileV Require Import C06.Model C06.Proofs.
 Local Open Scope Q_scope.
